@@ -1,3 +1,44 @@
+"""Mutation self-test of the checks themselves (a development helper, NOT a registered check command).
+
+Every directory under /verif/seeded holds a change that breaks one property while the repository's own suite still passes.
+`./vx selftest [TAG ...]` applies each stored patch to /repo's working tree (git apply), runs the checks named in meta.json
+(`selftest_checks`, default: the property) and undoes the patch straight afterwards (git checkout -- .), as the brief prescribes.
+It refuses to start on a dirty tree.  A stored change that is no longer detected is reported; exit 1 if any."""
+import json
+import os
+import subprocess
+
+VERIF = os.path.dirname(os.path.dirname(os.path.abspath(__file__)))
+REPO = "/repo"
+
+
 def selftest(args):
-    print("no self-test registered yet")
-    return 0
+    st = subprocess.run(["git", "-C", REPO, "status", "--porcelain", "--untracked-files=no"], capture_output=True, text=True).stdout.strip()
+    if st:
+        print("refusing: /repo has uncommitted changes")
+        return 2
+    tags = args or sorted(os.listdir(os.path.join(VERIF, "seeded")))
+    bad = 0
+    for tag in tags:
+        d = os.path.join(VERIF, "seeded", tag)
+        meta = json.load(open(os.path.join(d, "meta.json")))
+        props = meta.get("selftest_checks") or [meta.get("property") or tag[:3]]
+        p = subprocess.run(["git", "-C", REPO, "apply", os.path.join(d, "patch.diff")], capture_output=True, text=True)
+        if p.returncode != 0:
+            print("%s: patch no longer applies (%s)" % (tag, p.stderr.strip()[:100]))
+            continue
+        try:
+            hit = None
+            for prop in props:
+                r = subprocess.run([os.path.join(VERIF, "vx"), "check", prop], capture_output=True, text=True)
+                if r.returncode == 1 and ("VIOLATION property=%s" % prop) in r.stdout:
+                    hit = [l for l in r.stdout.splitlines() if l.startswith("VIOLATION")][0]
+                    break
+            if hit:
+                print("%s: detected  %s" % (tag, hit))
+            else:
+                bad += 1
+                print("%s: NOT detected (checks %s)" % (tag, props))
+        finally:
+            subprocess.run(["git", "-C", REPO, "checkout", "--", "."], check=True)
+    return 1 if bad else 0
